@@ -1312,6 +1312,12 @@ def search(ctx, budget_s):
     t0 = time.time()
     rng = random.Random(ctx.seed + 505)
     n = 0
+    # merge histories (aliasing between distributions) and maximum-credibility trees first
+    from dv import c05_merge
+    n_shapes = c05_merge.run_cases(ctx, random.Random(ctx.seed + 5056), 400, budget_s=budget_s / 3.0)
+    ctx.notes.append("search: %d merge / maximum-credibility histories through their oracle" % n_shapes)
+    if ctx.violations:
+        return
     cases = probe_cases()
     while time.time() - t0 < budget_s and n < 5000:
         case = cases.pop() if cases else gen_case(rng)
@@ -1343,16 +1349,24 @@ def run(tier, seed, replay=None):
         "exact rational arithmetic; binary64 rounding is outside the model (frequencies compared within 1e-12, means/variances/scores within 1e-9 relative)",
         "per-tree bipartition records (split bitmask, edge length, node age) are inputs observed from the library's own encoding (C01/C17); the consensus theorems assume each tree's clades are pairwise compatible and distinct - checked on every generated input by case_hyps",
         "log-product scores are modelled as exact products; hpd95 and 5/95 quantiles are outside exact arithmetic and not modelled",
+        "translator tie wave 5 (Gen/SplitDistTa.v, Props/C05Gen.v): trusted are the compiler py/dv/c05_gen_impl3.py and the stated Python meaning of the primitives in coq/Model/C05GenPrims3.v (the tree object from_split_bitmasks returns and the split bitmask each of its nodes presents to summarize_splits_on_tree(is_bipartitions_updated=True)); **split_summarization_kwargs is the configured summarizer record; merge and maximum-credibility history shapes (py/dv/c05_merge.py) are checked by their oracle only",
         "namespaces with vacated bits and trees on a subset of the taxa are outside the property's quantifier: they are run through the correspondence only (the oracle and the namespace hypotheses are skipped for them)",
     ]
     if replay:
         import json
         r = json.load(open(replay))["replay"]
+        if "shape_case" in r:
+            from dv import c05_merge
+            print("oracle:", c05_merge.oracle(r["shape_case"], c05_merge.observe(r["shape_case"])))
+            return 0
         case = r["case"]
         obs = observe(case)
         print("oracle:", oracle(case, obs))
         return 0
     ok = core.proof_stage(ctx, ["Props/C05.vo"], gen_needed=("BitFns", "Consts", "SplitDist"))
+    # translator tie, wave 5 (Gen/SplitDistTa.v: restore_tree, maximum_*_split_support_tree, TreeArray.consensus_tree)
+    ok = core.proof_stage(ctx, ["Props/C05Gen.vo"], props_file="Props/C05Gen.v",
+                          gen_needed=("BitFns", "Consts", "SplitDist")) and ok
     if not ok:
         core.broken_proof(ctx, search)
     n = 240 if tier == "quick" else 4000
@@ -1370,6 +1384,10 @@ def run(tier, seed, replay=None):
             if o[0] == "Summarize":
                 ctx.count("mode:%s" % o[2]["mode"])
     sd_complex_probe(ctx)
+    # history shapes outside the single-array op language: merges (sources must stay unchanged, result = fresh
+    # collection) and maximum-credibility trees (support of every node = frequency of its clade; arg-max)
+    from dv import c05_merge
+    c05_merge.run_cases(ctx, random.Random(ctx.seed + 5055), 80 if tier == "quick" else 1500)
 
     def observe_counting(case):
         obs = observe(case)
